@@ -30,8 +30,16 @@ func withBase(c epCfg, mtu uint32, tsn uint32, rtoMax float64) epCfg {
 	return c
 }
 
+// extraMon: wire monitors a property wants on every scenario it runs (set by the property
+// function around its exploration; the scenarios call generalVerdicts in their Final).
+var extraMon monOpts
+
 // generalVerdicts are the verdicts every two-endpoint execution is subject to.
 func generalVerdicts(m *Sim, x *Exec, leak bool) {
+	if extraMon != (monOpts{}) && !m.monDone {
+		m.monDone = true
+		runWireMonitors(m, x, extraMon)
+	}
 	if x.Out.Deadlock {
 		m.Failf("deadlock", "%s", x.Out.DeadlockMsg)
 	}
